@@ -25,6 +25,10 @@ EXPLANATION = (
 TECHNIQUE = "name/role/index correspondence over all model call sites + phi-dimension typestate + sibling (mirror/twin) comparison by normal forms"
 DECLINED = ["finiteness / non-negativity of model output", "numerical equality at the nesting point", "equivariance up to splitting error"]
 
+TWIN_EXCEPTIONS = {
+    ('sec_contact_asym_mig_three_epoch', 'sec_contact_sym_mig_three_epoch'):
+        "documented difference: the asymmetric model has six parameters and its docstring lists 'T3 (not used)'; its final isolation epoch deliberately lasts T2",
+}
 MODS = ['dadi.Demographics1D', 'dadi.Demographics2D', 'dadi.Demographics3D', 'dadi.PortikModels.portik_models_2d', 'dadi.PortikModels.portik_models_3d', 'dadi.DFE.DemogSelModels']
 
 
@@ -406,5 +410,43 @@ def check_siblings(rep, prog, fns):
                         same = False
                 rep.ob('R-TWIN', '%s / %s: %s' % (name, name + suffix, k), same, '%s: %s  |  %s: %s' % (name, ast.unparse(v1)[:60], name + suffix, ast.unparse(v2)[:60]), m2.rel, a2[k].lineno,
                        what='twin models define the intermediate size %s by the same expression' % k)
+    # sym / asym twins: same sequence of operations, differing only in how the migration slots are filled
+    n_s = 0
+    for name, lst in byname.items():
+        if '_asym_' not in name and not name.endswith('_asym'):
+            continue
+        sname = name.replace('_asym_', '_sym_') if '_asym_' in name else name[:-5] + '_sym'
+        tw = byname.get(sname)
+        if not tw:
+            continue
+        (m1, f1), (m2, f2) = lst[0], tw[0]
+
+        def ops(m, fn):
+            out = []
+            for c in own_nodes(fn):
+                if isinstance(c, ast.Call) and (dotted(c.func) or '').startswith(('Integration.', 'PhiManip.')):
+                    callee = prog.resolve_call(m, c, scope=fn)
+                    if callee is None:
+                        continue
+                    b, _ = bind_call(callee, c)
+                    out.append((c.lineno, callee.name, {k: ast.unparse(v) for k, v in b.items() if not re.fullmatch(r'm\d\d', k)}, {k: ast.unparse(v) for k, v in b.items() if re.fullmatch(r'm\d\d', k)}))
+            return sorted(out)
+        o1, o2 = ops(m1, f1), ops(m2, f2)
+        same = len(o1) == len(o2) and all(a[1] == b[1] and a[2] == b[2] for a, b in zip(o1, o2))
+        # migration: zero in one <=> zero in the other
+        samez = same and all({k for k, v in a[3].items() if v != '0'} == {k for k, v in b[3].items() if v != '0'} for a, b in zip(o1, o2))
+        n_s += 1
+        if (name, sname) in TWIN_EXCEPTIONS:
+            rep.note('R-TWIN exception %s / %s: %s' % (name, sname, TWIN_EXCEPTIONS[(name, sname)]))
+            continue
+        diff = ''
+        if not same:
+            for a, b in zip(o1, o2):
+                if a[1] != b[1] or a[2] != b[2]:
+                    diff = '%s line %d: %s(%s) vs %s line %d: %s(%s)' % (name, a[0], a[1], {k: v for k, v in a[2].items() if b[2].get(k) != v}, sname, b[0], b[1], {k: v for k, v in b[2].items() if a[2].get(k) != v})
+                    break
+        rep.ob('R-TWIN', '%s / %s operations' % (name, sname), same and samez, diff or '%d operations with identical sizes, times and grids; migration switched on in the same epochs' % len(o1), m1.rel, f1.lineno,
+               what='asymmetric and symmetric variants of a model perform the same operations apart from the migration rates')
+    rep.extra['sym_asym_twins'] = n_s
     rep.extra['mirror_pairs'] = n_m
     rep.extra['twin_definitions'] = n_t
